@@ -1,5 +1,7 @@
 """Determines if a channel is trace-preserving."""
 
+import itertools
+
 import numpy as np
 
 from toqito.channels import partial_trace
@@ -92,6 +94,12 @@ def is_trace_preserving(
     # If the variable `phi` is provided as a list, we assume this is a list
     # of Kraus operators.
     if isinstance(phi, list):
+        # Accept the same Kraus representations as `apply_channel`:
+        # [K1, .. Kr], [[K1], .. [Kr]], [[K1, .. Kr]] (r > 2) or [[A1, B1], .. [Ar, Br]].
+        if isinstance(phi[0], np.ndarray):
+            phi = [[k_mat, k_mat] for k_mat in phi]
+        elif len(phi[0]) == 1 or (len(phi) == 1 and len(phi[0]) > 2):
+            phi = [[k_mat, k_mat] for k_mat in itertools.chain(*phi)]
         phi_l = [A for A, _ in phi]
         phi_r = [B for _, B in phi]
 
